@@ -93,3 +93,41 @@ func zzStubSetBytesBoundedRec(in []byte, order []byte) ([]uint64, error) {
 	}
 	return zzUF64("fp381.frombytes", len(in)/8, zzBytesToWords(in)), nil
 }
+
+// Small-field model (set "fpsmall"): code that is generic in the field - batch inversion, affine
+// conversion - is run over GF(13) instead of the 381-bit prime (modular multiplication over larger fields stalls the bit-blasting back ends; the code under test never looks at the modulus): an element is its value in limb 0,
+// multiplication is (x*y) mod 13, Inv returns the inverse (0 for 0, as the real Inv does), so the
+// solver decides the algebra for every choice of coordinates, including zero denominators.
+
+const zzSmallP = 13
+
+func ZZSmall(v uint64) Fp       { var z Fp; z.i[0] = v; return z }
+func ZZSmallVal(z *Fp) uint64   { return z.i[0] }
+// products of two values below 13 fit 8 bits: narrow arithmetic keeps the queries easy
+func ZZSmallMul(x, y uint64) uint64 { return uint64((uint8(x) * uint8(y)) % zzSmallP) }
+
+//zz:replace (*ecc/bls12381/ff.Fp).Mul set=fpsmall
+func zzSmallFpMul(z, x, y *Fp) { v := ZZSmallMul(x.i[0], y.i[0]); z.i = fpMont{}; z.i[0] = v }
+
+//zz:replace (*ecc/bls12381/ff.Fp).SetOne set=fpsmall
+func zzSmallFpSetOne(z *Fp) { z.i = fpMont{}; z.i[0] = 1 }
+
+//zz:replace (*ecc/bls12381/ff.Fp).SetUint64 set=fpsmall
+func zzSmallFpSetUint64(z *Fp, n uint64) { z.i = fpMont{}; z.i[0] = n % zzSmallP }
+
+//zz:replace (ecc/bls12381/ff.Fp).IsZero set=fpsmall
+func zzSmallFpIsZero(z Fp) int {
+	if z.i[0] == 0 {
+		return 1
+	}
+	return 0
+}
+
+//zz:replace (*ecc/bls12381/ff.Fp).Inv set=fpsmall
+func zzSmallFpInv(z *Fp, x *Fp) {
+	v := x.i[0]
+	r := zzFreshU64()
+	zzAssume(zzAnd2(r < zzSmallP, zzOr2(zzAnd2(v == 0, r == 0), zzAnd2(v != 0, ZZSmallMul(r, v) == 1))))
+	z.i = fpMont{}
+	z.i[0] = r
+}
